@@ -91,6 +91,7 @@ void     vsim_sign_mode(int mode);                /* 0: flip a byte of the produ
 
 /* byzantine peer (guarded hook in /repo): while `node` is current, skip the next `count` handshake messages of type `hs_type` (254 = CCS) */
 void vsim_hs_skip(int node, int hs_type, int count);
+void vsim_hs_skip_also(int hs_type2, int count);
 uint64_t vsim_hs_skipped(void);
 
 /* byzantine sender: while `node` is current, the plaintext of its nth AEAD seal from now (0-based) is edited before sealing
